@@ -134,7 +134,7 @@ def props_modules(prop):
     mods = []
     if os.path.isdir(d):
         for f in sorted(os.listdir(d)):
-            if f.endswith(".lean") and (f == prop + ".lean" or f.startswith(prop + "_")):
+            if f.endswith(".lean") and re.match(r"^" + prop + r"([A-Za-z_][A-Za-z0-9_]*)?\.lean$", f):
                 mods.append("Rawr.Props." + f[:-5])
     return mods
 
